@@ -14,7 +14,7 @@ RULE = (
     "a.value +/- b.value*prod((slope(u_b)/slope(u_a))**E) (rel 1e-9 of |a|+|b'|); (a+b)-b ~ a (Scalars and Arrays), a op b twice on the same operand objects gives the same values; mag(a+b) ~ mag(b+a). "
     "Simple exponent-1 quantities additionally over affine units against a.value +/- Convert(u_b->u_a, b.value); units with an offset also under exponents -2..3 inside derived operands (1/degC + 1/K, psig2, with or without a second factor), where the ratio is the ratio of the unit sizes. "
     "A left operand created directly on a derived quantity that writes one quantity type in two units under two categories (m.km): amount in base units, categories, repeatability and b op a, and the units against the bug model of known finding 30. "
-    "Scalar operands may be instances of a Scalar subclass (the other one plain, or of a sibling subclass). Non-trivial = operands differ in a unit of a shared type and (some |exponent|>=2 or >=2 quantity types); "
+    "Scalar operands may be instances of a Scalar subclass (the other one plain, or of a sibling subclass). Sums of operands of this database taken while a project database (same symbols, other factors) is current equal the sums taken while their own database is current. Non-trivial = operands differ in a unit of a shared type and (some |exponent|>=2 or >=2 quantity types); "
     "distinct key = (instance a, instance b, op, container)."
 )
 ASSUMPTIONS = ["UnitModel slopes come from single-unit float conversions (validated by C01)", "for a unit with an offset inside a derived quantity the unit ratio is the ratio of the unit sizes (1/degC against 1/K is 1): offsets only apply to exponent-1 single-unit quantities"]
@@ -52,6 +52,7 @@ class _Lazy:
         return _SUBS[self.i].CreateWithQuantity(q, v)
 
 
+_SKEWED = None
 _SUBS = None
 _SubA, _SubB = _Lazy(0), _Lazy(1)
 
@@ -237,6 +238,43 @@ class Checker:
             if v2 != v0 or repr(r2.GetQuantity()) != repr(q):
                 ctx.fail("sum_not_repeatable:mixed_units_in_one_type", case, "%s computed twice on the same operands gives %r and then %r" % (what, r, r2))
 
+    def check_other_database_current(self, case):
+        """the operands belong to this database; the sum is taken once while it is current and once while a project
+        database that defines the same symbols with other factors is current: the same result (what the operands'
+        own database says), whichever database happens to be current"""
+        import numpy
+
+        from barril.units import Array, Scalar
+
+        ctx = self.ctx
+        ua, ub, e, x, y, kind, op = case["ua"], case["ub"], case["e"], case["x"], case["y"], case["kind"], case["op"]
+
+        def power(s, e):
+            if e == 1:
+                return s
+            if e == -1:
+                return 1.0 / s
+            r = s
+            for _ in range(abs(e) - 1):
+                r = r * s
+            return r if e > 0 else 1.0 / r
+
+        a, b = power(Scalar(x, ua), e), power(Scalar(y, ub), e)
+        if kind != "scalar":
+            mk = list if kind == "list" else numpy.array
+            a, b = Array.CreateWithQuantity(a.GetQuantity(), mk([a.value, 1.0])), Array.CreateWithQuantity(b.GetQuantity(), mk([b.value, 2.0]))
+        ref = repr(a + b if op == "+" else a - b)
+        global _SKEWED
+        if _SKEWED is None:
+            _SKEWED = env.skewed_db()
+        ctx.ev()
+        with env.pushed(_SKEWED):
+            got = repr(a + b if op == "+" else a - b)
+        if got != ref:
+            ctx.fail("sum_depends_on_the_current_database", case, "%r %s %r gives %s while its own database is current and %s while a project database is" % (a, op, b, ref, got))
+        ctx.cls("sum_under_another_current_database")
+        ctx.nontrivial(("other_db", ua, ub, e, kind, op), case if len(ctx.samples) < 12 else None)
+
     def check_affine(self, case):
         """exponent-1 quantities over any unit of the type, incl. affine: statement's own wording."""
         from barril.units import Scalar
@@ -369,7 +407,23 @@ def _strategies(ch):
             "op": draw(st.sampled_from(["+", "-"])),
         }
 
-    return pair_case(), affine_case(), affine_derived_case(), mixed_case()
+    shared = [["m", "cm", "km", "ft"], ["s", "min", "h"], ["K", "degC", "degF"]]
+
+    @st.composite
+    def other_db_case(draw):
+        us = draw(st.sampled_from(shared))
+        return {
+            "other_db": True,
+            "ua": draw(st.sampled_from(us)),
+            "ub": draw(st.sampled_from(us)),
+            "e": draw(st.sampled_from([1, 2, -1, 3, -2])),
+            "x": draw(gen.moderate_values(1e-2, 1e3)),
+            "y": draw(gen.moderate_values(1e-2, 1e3)),
+            "kind": draw(st.sampled_from(["scalar", "list", "ndarray"])),
+            "op": draw(st.sampled_from(["+", "-"])),
+        }
+
+    return pair_case(), affine_case(), affine_derived_case(), mixed_case(), other_db_case()
 
 
 def _fix_case(case):
@@ -386,7 +440,15 @@ def run_shard(spec, ctx):
     db = env.new_db("posc")
     with env.pushed(db):
         ch = Checker(ctx, db)
-        pair_case, affine_case, affine_derived_case, mixed_case = _strategies(ch)
+        pair_case, affine_case, affine_derived_case, mixed_case, other_db_case = _strategies(ch)
+
+        def t5():
+            @given(other_db_case)
+            def test(case):
+                core.guarded(ctx, ch.check_other_database_current, case)
+
+            return test
+
 
         def t4():
             @given(mixed_case)
@@ -422,12 +484,15 @@ def run_shard(spec, ctx):
         core.hunt(ctx, t2, seed + 1, max(100, spec["n"] // 3))
         core.hunt(ctx, t3, seed + 2, max(100, spec["n"] // 3))
         core.hunt(ctx, t4, seed + 3, max(100, spec["n"] // 4))
+        core.hunt(ctx, t5, seed + 4, max(60, spec["n"] // 8))
 
 
 def replay(case, ctx):
     db = env.new_db("posc")
     with env.pushed(db):
         ch = Checker(ctx, db)
+        if case.get("other_db"):
+            return core.replay_guarded(ctx, ch.check_other_database_current, case)
         if case.get("mixed"):
             return core.replay_guarded(ctx, ch.check_mixed, case)
         if "da" in case:
